@@ -55,6 +55,8 @@ def instances(tier):
     for mode in ("time", "slice"):
         out.append(dict(id="%s-after-lookups-in-callback-euler-N3" % ("time-lookup" if mode == "time" else mode), family="euler", N=3, mode=mode, dense=False,
                         cb_lookups=True, budget=b))
+    # dense run stopped by a terminal event located in its second examined step (the overshooting step is rolled back and re-taken up to the event)
+    out.append(dict(id="time-lookup-dense-after-terminal-event-euler-N2", family="euler", N=2, mode="time", dense=True, terminal_event=True, budget=b))
     # the run goes AGAINST the direction of the constructor's (t0, tf) span: integrate(T) with T on the other side of t0
     for mode in ("time", "slice", "index"):
         out.append(dict(id="%s-against-span-euler-N2" % mode, family="euler", N=2, mode=mode, dense=False, against=True, budget=b))
@@ -124,6 +126,25 @@ def scenario(c, inst):
                 return np.array([], dtype=np.int64), c.array([]), False, []
             with patched(ds, "handle_events", no_events):
                 st, r = run(a.integrate, events=[Ev("e0")], callback=spans.cap_callback(c, cap + 2, kind))
+        elif inst.get("terminal_event"):
+            import desolver.differential_system as ds
+            from .common import patched
+            from .events_common import Ev
+            seen_calls = [0]
+            tev = Ev("e0")
+            tev.is_terminal = True
+
+            def terminal_in_second_step(sol_tuple, events, consts, direction, is_terminal, attributes):
+                seen_calls[0] += 1
+                sol, t_prev, t_next = sol_tuple
+                if seen_calls[0] == 2:
+                    lam = c.real("evpos")
+                    c.assume(lam > 0)
+                    c.assume(lam < 1)
+                    return np.array([0], dtype=np.int64), c.array([t_prev + lam * (t_next - t_prev)]), True, [events[0]]
+                return np.array([], dtype=np.int64), c.array([]), False, []
+            with patched(ds, "handle_events", terminal_in_second_step):
+                st, r = run(a.integrate, events=[tev], callback=spans.cap_callback(c, cap + 4, kind))
         elif inst.get("cb_lookups"):
             qcb = c.real("q_cb")
             c.assume(qcb <= 128)
